@@ -1263,3 +1263,158 @@ func ruleLevelChangeResizesCounters(r *Run) {
 	}
 	r.check(n >= 4, "label-types:level-stores", fmt.Sprintf("%d functions store MaxDownresLevel", n), "fewer than confirmed by reading: rule needs review", "-")
 }
+
+func init() {
+	reg := func(id, prop string) {
+		register(ruleDef{ID: id, Prop: prop, Tier: "quick", Floor: 2,
+			Title: "the id-counter record is read and written in one critical section: in every repo-manager method that puts the record of the three id counters, a mutex acquired in that method is held from the loads of the counters to the Put, so that records reach the store in the order in which they were read",
+			Fn:    ruleIDRecordAtomic})
+	}
+	reg("R12.20", "C12")
+	reg("R7.15", "C07")
+}
+
+func ruleIDRecordAtomic(r *Run) {
+	w := r.W
+	n := 0
+	newIDs := w.pkgScopeConst("datastore", "newIDsKey")
+	for _, f := range w.RepoFuncs {
+		if relPkg(pkgPathOf(f)) != "datastore" || len(f.Blocks) == 0 || f.Signature.Recv() == nil || !strings.HasSuffix(f.Signature.Recv().Type().String(), "repoManager") || strings.HasSuffix(w.fposFile(f), "_test.go") {
+			continue
+		}
+		var put ssa.Instruction
+		for _, c := range calls(f) {
+			if methodNameOf(c) != "Put" || !c.Common().IsInvoke() || len(c.Common().Args) != 3 {
+				continue
+			}
+			for d := range dataDeps(c.Common().Args[1]) {
+				if kc, ok := d.(*ssa.Call); ok {
+					if callee := kc.Call.StaticCallee(); callee != nil && callee.Name() == "NewTKey" && len(kc.Call.Args) == 2 {
+						if k, ok := kc.Call.Args[0].(*ssa.Const); ok && newIDs != nil && k.Value != nil && k.Value.String() == newIDs.String() {
+							put = c
+						}
+					}
+				}
+			}
+		}
+		if put == nil {
+			continue
+		}
+		n++
+		// the counter loads
+		var loads []ssa.Instruction
+		for _, b := range f.Blocks {
+			for _, in := range b.Instrs {
+				if ld, ok := in.(*ssa.UnOp); ok && ld.Op == token.MUL {
+					if fa, ok := ld.X.(*ssa.FieldAddr); ok {
+						if name, _, _ := fieldName(fa); name == "repoID" || name == "versionID" || name == "instanceID" {
+							loads = append(loads, ld)
+						}
+					}
+				}
+			}
+		}
+		ok := false
+		for _, b := range f.Blocks {
+			for _, in := range b.Instrs {
+				op, isOp := asLockOp(in)
+				if !isOp || !op.lock || !op.write {
+					continue
+				}
+				all := len(loads) > 0
+				for _, x := range append(loads, put) {
+					if h, wr := heldKeyAt(f, x, op.key); !h || !wr {
+						all = false
+					}
+				}
+				if all {
+					ok = true
+				}
+			}
+		}
+		r.check(ok, fname(f)+":id-record:read-and-written-under-one-lock", "a mutex taken in the method is held from the counter loads to the Put",
+			"the three id counters are read and their record is written without a lock of the method's own: a record assembled before a concurrent allocation can reach the store after that allocation's record, the persisted counters fall behind the ids handed out, and after a restart those ids are handed out again", w.pos(put.Pos()))
+	}
+	r.check(n >= 1, "datastore:id-record-writers", fmt.Sprintf("%d", n), "none found: rule needs review", "-")
+}
+
+func init() {
+	reg := func(id, prop string) {
+		register(ruleDef{ID: id, Prop: prop, Tier: "quick", Floor: 4,
+			Title: "a deletion in progress is on record: datastore.Data's gob encoding carries the `deleted` mark (written and read back), and every start of the background deletion of an instance (`go repoT.deleteData`) is dominated by a save of the repo that follows the setting of the mark — the loader's restart loop can only finish what the store says was begun",
+			Fn:    ruleDeletionMarkPersisted})
+	}
+	reg("R4.14", "C04")
+	reg("R3.23", "C03")
+}
+
+func ruleDeletionMarkPersisted(r *Run) {
+	w := r.W
+	for _, name := range []string{"GobEncode", "GobDecode"} {
+		f := w.method("datastore", "Data", name)
+		if f == nil {
+			r.undecided("datastore.Data."+name, "anchor not found")
+			continue
+		}
+		touches := false
+		for _, b := range f.Blocks {
+			for _, in := range b.Instrs {
+				if fa, ok := in.(*ssa.FieldAddr); ok {
+					if fn, _, _ := fieldName(fa); fn == "deleted" {
+						touches = true
+					}
+				}
+			}
+		}
+		r.check(touches, "datastore.Data."+name+":deleted-mark", "the encoding carries the deletion mark",
+			"the deletion mark of a data instance is not part of its stored form: after a crash during the background deletion the instance is loaded as live, with part of its key-values gone, and the loader's loop that restarts deletions never finds anything to restart", w.fpos(f))
+	}
+	saves := w.newReach(func(c ssa.CallInstruction) bool {
+		callee := staticCallee(c)
+		return callee != nil && callee.Name() == "saveToStore"
+	}, nil)
+	n := 0
+	for _, f := range w.RepoFuncs {
+		if relPkg(pkgPathOf(f)) != "datastore" || len(f.Blocks) == 0 || strings.HasSuffix(w.fposFile(f), "_test.go") {
+			continue
+		}
+		k := 0
+		for _, b := range f.Blocks {
+			for _, in := range b.Instrs {
+				g, ok := in.(*ssa.Go)
+				if !ok {
+					continue
+				}
+				callee := g.Call.StaticCallee()
+				if callee == nil || callee.Name() != "deleteData" || callee.Signature.Recv() == nil || !strings.HasSuffix(callee.Signature.Recv().Type().String(), "repoT") {
+					continue
+				}
+				k++
+				n++
+				// the mark, then a save, then the goroutine
+				var mark ssa.Instruction
+				for _, c := range calls(f) {
+					if methodNameOf(c) == "SetDeleted" && domInstr(c, g) {
+						mark = c
+					}
+				}
+				saved := false
+				for _, c := range calls(f) {
+					cal := staticCallee(c)
+					if cal == nil || !(cal.Name() == "saveToStore" || saves.From(cal)) {
+						continue
+					}
+					if _, isGo := c.(*ssa.Go); isGo {
+						continue
+					}
+					if mark != nil && domInstr(mark, c) && domInstr(c, g) {
+						saved = true
+					}
+				}
+				r.check(saved, fmt.Sprintf("%s:background-deletion#%d:mark-saved-first", fname(f), k), "the repo is saved between the setting of the mark and the start of the deletion",
+					"the background deletion of an instance starts before the repo, with the instance marked as deleted, has been saved: a crash while its key-values are being removed leaves an instance that the next start loads as live", w.pos(g.Pos()))
+			}
+		}
+	}
+	r.check(n >= 2, "datastore:background-deletions", fmt.Sprintf("%d", n), "fewer than confirmed by reading: rule needs review", "-")
+}
